@@ -87,6 +87,20 @@ def build_store(case):
     else:
         ctxs = [dict(start=None, end=S.T0 + 2 * q * S.DAY, streams=streams), dict(start=S.T0 + 3 * q * S.DAY, end=None, streams=streams)]
     cfg = Config(S.make_config(ctxs))
+    if case.get("far"):
+        # instants three centuries ahead (outside the range of nanosecond timestamps) in a second-resolution column
+        shift = 320 * 365 * S.DAY
+        tab["time"] = [t + shift for t in tab["time"]]
+        df["time"] = np.array(tab["time"], dtype="int64").astype("datetime64[s]")
+        for c in ctxs:
+            for k in ("start", "end"):
+                if c.get(k) is not None:
+                    c[k] = c[k] + shift
+        cfg = Config(S.make_config(ctxs))
+    if case.get("renamed_first"):
+        # earlier in the same process: another store whose axis columns are renamed (its frame is not judged here)
+        other = PandasStore(PandasStream(df).run(cfg), axes=dict(t="timestamp", z="depth", y="latitude", x="longitude"))
+        other.save(write_data=False, write_axes=True)
     store = PandasStore(PandasStream(df).run(cfg))
     masks = [S.ref_mask(tab["time"], c.get("start"), c.get("end")) for c in ctxs]
     # rows covered for EVERY configured result (the store may take a stream's data / the axes from any of its results)
@@ -301,6 +315,7 @@ def tasks(tier):
     for ss in sets:
         for tests in (["gross_range_test"], ["spike_test"], ["gross_range_test", "spike_test"], ["valid_range_test", "gross_range_test"]):
             ts.append(("store", n, ss, tests))
+    ts.append(("store_hist", 5, ["v1", "2x"], ["gross_range_test", "spike_test"]))
     for drop in (["z"], ["lat", "lon"], ["z", "lat"]):
         ts.append(("store_drop", 5, ["v1", "2x"], ["gross_range_test", "spike_test"], drop))
     for ss in (["v1"], ["2x", "a b"]):
@@ -316,6 +331,17 @@ def tasks(tier):
 
 
 def run_task(task, acc):
+    if task[0] == "store_hist":
+        _, n, ss, tests = task
+
+        def gen_h():
+            for ctx in CTX_KINDS:
+                for agg in (False, True):
+                    svs = save_variants(ss, tests)[:4]
+                    yield dict(n=n, streams=ss, tests=tests, ctx=ctx, aggregate=agg, saves=svs, renamed_first=True)
+                    yield dict(n=n, streams=ss, tests=tests, ctx=ctx, aggregate=agg, saves=svs, far=True)
+        run_cases(acc, gen_h(), check_case)
+        return
     if task[0] == "store_drop":
         _, n, ss, tests, drop = task
 
